@@ -55,6 +55,15 @@ func (c *Ctx) dependsOn(v ssa.Value, target func(ssa.Value) bool, depth int, see
 				return true
 			}
 		}
+		// a function started with go / defer gets its arguments the same way
+		for _, s := range c.P.callers[fn] {
+			if _, isCall := s.(*ssa.Call); isCall {
+				continue
+			}
+			if cm := s.Common(); !cm.IsInvoke() && idx >= 0 && idx < len(cm.Args) && len(cm.Args) == len(fn.Params) && c.dependsOn(cm.Args[idx], target, depth+1, seen) {
+				return true
+			}
+		}
 		return false
 	case *ssa.Const, *ssa.Global, *ssa.Function, *ssa.Builtin:
 		return false
@@ -62,6 +71,15 @@ func (c *Ctx) dependsOn(v ssa.Value, target func(ssa.Value) bool, depth int, see
 	in, ok := v.(ssa.Instruction)
 	if !ok {
 		return false
+	}
+	// a pointer held in an SSA value (u, _ := url.Parse(…); u.Path = …): what is written into the
+	// object's fields through this value is part of what it denotes
+	if _, isPtr := v.Type().Underlying().(*types.Pointer); isPtr && v.Referrers() != nil && depth < 12 {
+		for _, ref := range *v.Referrers() {
+			if fa, ok := ref.(*ssa.FieldAddr); ok && fa.X == v && c.storesDepend(fa, target, depth+2, seen) {
+				return true
+			}
+		}
 	}
 	for _, op := range in.Operands(nil) {
 		if op != nil && *op != nil && c.dependsOn(*op, target, depth+1, seen) {
@@ -543,7 +561,7 @@ func runC20(c *Ctx) {
 		})
 		// upload: http.Post / client.Post / NewRequest with URL from the id and body from the argument
 		nup := 0
-		for _, f := range withAnon(encf) {
+		for _, f := range c.region(encf) {
 			allInstrs(f, func(in ssa.Instruction) {
 				ci, ok := in.(*ssa.Call)
 				if !ok {
